@@ -11,3 +11,5 @@ def run(ctx):
         blockcamp.run(ctx, "C06", 160 if q else 1600)
         from .. import dwvw
         dwvw.run(ctx, "C06", 120 if q else 1200)
+        from .. import alac           # CAF/ALAC: packet staging, pakt / kuki chunks, read / seek around the codec core (lean/SfModel/AlacFile.lean)
+        alac.run(ctx, "C06", 96 if q else 960)
